@@ -47,6 +47,9 @@ CHECKS = {
  "C10": dict(level="model_checking", technique="exhaustive enumeration of API call histories (all histories up to a depth from the initial state, plus de Bruijn sessions covering every call window after a long history) against a switch-free fresh-session reference model; exhaustive enumeration of thread interleavings at API-call granularity under a controlled scheduler",
              text="25-call alphabet chosen to collide on every cache (14 preference writes, 4 expressions, 7 observations). Quick: all histories of depth <=2, depth 3 starting with set_mathml, three depth-4 shapes (configure/set/switch/observe, configure/set/observe/observe, set/observe/switch/observe) in fresh sessions, and an order-3 de Bruijn sequence run as long sessions; thorough: all depth-4 histories ending in an observation and an order-4 de Bruijn sequence. Every observation is compared with a fresh session that sets the current preference values before anything loads. Schedules: all interleavings of 2-thread x 4-step and 3-thread x 3-step script tuples (thorough: longer), each thread compared with its solo run.",
              note="API-call granularity is justified by a census of process-wide mutable state in the crate (none; re-counted on every run). A mismatch is filed under 'stale canonicalization' only when the canonical MathML of the expression really differs between the preferences at set_mathml time and now (decided by two reference sessions).", design="§4 C10", engine="E2+E3"),
+ "C11": dict(level="model_checking", technique="explicit-state breadth-first search over the real navigation transition function with exact state hashing (state read and restored through a cfg-guarded hook, restore validated against replay), invariants checked on every transition",
+             text="State = complete NavigationState (position stack, command stack, place markers, mode, overview flag) + NavMode/Overview preferences + expression index; transitions = 36 navigation commands, set_mathml (other/same expression), set_navigation_node (4 positions, unknown id). Quick: full alphabet to depth 3 on 3 expression/mode pairs and a 9-command core alphabet to depth 6/5; thorough: full alphabet depth 3 on 5 expressions x 6 mode/overview/auto-zoom configurations, depth 4 on two, core alphabet to depth 7. Invariants I1-I6 of DESIGN §4 C11 on every transition; every state of the first levels is re-derived by replaying the command history through the public API in a fresh session and must agree with the restored state (otherwise the run aborts).",
+             note="Offsets inside a node are not compared (the statement speaks of nodes). A command that returns an error may move (only I1/I6 are demanded of it).", design="§4 C11", engine="E2"),
 }
 PENDING = {}
 
